@@ -1569,6 +1569,14 @@ type fidOutcome struct {
 	stale   bool // AcquireRequest() handed out a request that was still bound to another client
 }
 
+// fidErr renders an error without the per-process name of the temporary directory.
+func fidErr(err error) string {
+	if err == nil {
+		return "<nil>"
+	}
+	return strings.ReplaceAll(err.Error(), fidDiskDir, "<tmp>")
+}
+
 func fidTag(v string) string {
 	i := strings.LastIndex(v, fidSep)
 	if i < 0 {
@@ -1784,7 +1792,7 @@ func clientFidelity(s *simrt.Sim, info *harness.RunInfo) {
 		} else if req != nil && rq.release != 2 {
 			client.ReleaseRequest(req)
 		}
-		s.Logf("%s %s done after %v err=%v status=%d echo=%q", tok, rq.method, out.elapsed, err, out.status, out.echo)
+		s.Logf("%s %s done after %v err=%s status=%d echo=%q", tok, rq.method, out.elapsed, fidErr(err), out.status, out.echo)
 		return out
 	}
 	history := func(hn string) []*fidOutcome {
@@ -1931,7 +1939,7 @@ func clientFidelity(s *simrt.Sim, info *harness.RunInfo) {
 			case out.err == nil:
 				fail(idTO, "%s: answered after %v although the effective timeout is %v (%s)", tok, out.elapsed, eff, toDesc)
 			case !errors.Is(out.err, client.ErrTimeoutOrCancel):
-				fail("request", "%s: failed with %v (%s)", tok, out.err, toDesc)
+				fail("request", "%s: failed with %s (%s)", tok, fidErr(out.err), toDesc)
 			case out.elapsed != eff:
 				fail(idTO, "%s: timed out after %v, the effective timeout is %v (%s)", tok, out.elapsed, eff, toDesc)
 			}
@@ -1941,7 +1949,7 @@ func clientFidelity(s *simrt.Sim, info *harness.RunInfo) {
 			if errors.Is(out.err, client.ErrTimeoutOrCancel) {
 				fail(idTO, "%s: timed out after %v although the effective timeout is %v (%s)", tok, out.elapsed, eff, toDesc)
 			} else {
-				fail("request", "%s: failed with %v", tok, out.err)
+				fail("request", "%s: failed with %s", tok, fidErr(out.err))
 			}
 			return
 		}
